@@ -558,7 +558,14 @@ class World:
 
     def ev_Cycle(self):
         self.master.reschedule()
-        self.master.check_placement_integrity()
+        try:
+            self.master.check_placement_integrity()
+        except AssertionError as err:
+            if 'integrity' not in str(err):
+                raise
+            # the master found its own placement inconsistent: the state it leaves is
+            # still projected and judged; the process then exits (exit_on_unhandled)
+            self.die_after_line = True
 
     def ev_StaleCycle(self):
         """A cycle while watch events are still in flight (run_loop schedules after
@@ -673,6 +680,7 @@ class World:
 
     def apply(self, ev, args):
         self.v.step()
+        self.die_after_line = False
         self.died = False
         self.noop = False
         self.order = []
@@ -895,6 +903,9 @@ def replay(scn, history):
                                          for n, b, eb, a, ea in w.init_placement]
             if ev in ('CrashCycle', 'CrashRestart', 'StaleCrashCycle'):
                 line['crashed'] = bool(getattr(w, 'crashed', False))
+            if getattr(w, 'die_after_line', False):
+                line['integrity_failed'] = True
+                w.master = None
             if getattr(w, 'died', False):
                 line['died'] = True
             if getattr(w, 'noop', False):
